@@ -1,5 +1,5 @@
 """Check-side machinery shared by C06 and C07: case lists (generated closed-form tuples, programs run
-through `--invariants`), the Lean requests, judging, attribution of known findings, replay."""
+through `--invariants`), the Lean requests, judging, replay."""
 import json
 import os
 from fractions import Fraction as Fr
@@ -10,6 +10,7 @@ from .common import ROOT, REPO, model_batch_parallel, rng
 from .oracle import case_text, polar_subs, moments_request
 from .pool import run_tasks
 
+NRAW = 6          # central moments / cumulants are recomputed from raw-moment sequences for n0 <= n <= n0 + NRAW
 TASK_TUPLE = "harness.tasks.c0607:tuple_case"
 TASK_PROGRAM = "harness.tasks.c0607:program_case"
 
@@ -91,17 +92,16 @@ def tuple_cases(tier, tag, n_gen):
     return [dict(t) for t in L.FIXED_TUPLES] + [L.gen_tuple(r, i) for i in range(n_gen)]
 
 
-def make_task(case, want_c07, k_extra, caps, repair=None):
+def make_task(case, want_c07, k_extra, caps):
     if case["kind"] == "tuple":
         return {"fn": TASK_TUPLE, "args": {"cfs": case["cfs"], "want_c07": want_c07, "k_extra": k_extra,
-                                           "caps": caps, "repair": repair}}
+                                           "caps": caps}}
     return {"fn": TASK_PROGRAM, "args": {"text": case["text"], "goals": case["goals"], "want_c07": want_c07,
-                                         "k_extra": k_extra, "caps": caps, "repair": repair,
-                                         "subs": case.get("subs")}}
+                                         "k_extra": k_extra, "caps": caps, "subs": case.get("subs")}}
 
 
-def run_cases(cases, want_c07, k_extra, caps, timeout, repair=None, progress=None):
-    tasks = [make_task(c, want_c07, k_extra, caps, repair) for c in cases]
+def run_cases(cases, want_c07, k_extra, caps, timeout, progress=None):
+    tasks = [make_task(c, want_c07, k_extra, caps) for c in cases]
     return run_tasks(tasks, timeout=timeout, progress=progress)
 
 
@@ -121,14 +121,18 @@ def lean_requests(res, want_c07):
     cfs = res["cfs_ext"] if res.get("irrational_basis") else res["cfs"]
     for i, p in enumerate(res["basis"]):
         reqs.append(("inv", i, _with_D({"op": "invariant_check", "cfs": cfs, "poly": p, "n0": res["n0"]}, res)))
-    for s in res.get("systems") or []:
+    for si, s in enumerate(res.get("systems") or []):
         if "error" in s:
             continue
         terms = dict((g, ts) for g, ts in res["cfs"]).get(s["goal"])
         if terms is None:
             continue
-        reqs.append(("sys", s["goal"], _with_D({"op": "cfinite_check", "A": s["A"], "v": s["v"], "i": s["i"],
-                                                "n0": res["n0"], "terms": terms}, res)))
+        if s.get("kind", "E") == "E":
+            reqs.append(("sys", s["goal"], _with_D({"op": "cfinite_check", "A": s["A"], "v": s["v"], "i": s["i"],
+                                                    "n0": res["n0"], "terms": terms}, res)))
+        else:
+            for j, rw in enumerate(s["raws"]):
+                reqs.append(("raw", (si, j), {"op": "matpow_seq", "A": rw["A"], "v": rw["v"], "nmax": res["n0"] + NRAW}))
     c07 = res.get("c07") or {}
     if want_c07 and c07.get("status") == "ok":
         cofs = [c if c is not None else [] for c in c07["cofs"]]
@@ -194,6 +198,9 @@ def judge(cases, outs, want_c07, model_timeout=120):
                 v["sys_ok"] += 1
             else:
                 v["sys_bad"].append({"goal": pl, "first_bad": ans["first_bad"]})
+        elif tag == "raw":
+            si, j = pl
+            v.setdefault("_raw", {})[(si, j)] = [Fr(row[res["systems"][si]["raws"][j]["i"]]) for row in ans["seq"]]
         elif tag == "rel":
             c07 = res["c07"]
             v["c07"] = {"status": "pending", "k": c07["k"], "ncols": ans["ncols"], "window": ans["window"],
@@ -201,6 +208,8 @@ def judge(cases, outs, want_c07, model_timeout=120):
                         "member_ok": ans["member_ok"], "worker_window": c07["window"], "cands": []}
         elif tag == "cand":
             v.setdefault("_cands", []).append((pl, ans))
+    for v in verdicts:
+        _judge_derived_goals(v)
     for v in verdicts:
         c = v["c07"]
         if c.get("status") != "pending":
@@ -247,6 +256,52 @@ def judge(cases, outs, want_c07, model_timeout=120):
         else:
             c["status"] = "validated"
     return verdicts
+
+
+def central_from_raw(k, m):
+    """E (X - EX)^k from raw moments m[1..k] (m[0] = 1)"""
+    from math import comb
+    mm = [Fr(1)] + [m[j] for j in range(1, k + 1)]
+    return sum(comb(k, j) * mm[j] * (-mm[1]) ** (k - j) for j in range(k + 1))
+
+
+def cumulant_from_raw(k, m):
+    """kappa_k by the moment-cumulant recursion"""
+    from math import comb
+    kap = {}
+    for n in range(1, k + 1):
+        kap[n] = m[n] - sum(comb(n - 1, j - 1) * kap[j] * m[n - j] for j in range(1, n))
+    return kap[k]
+
+
+def _judge_derived_goals(v):
+    """ck(M) / kk(M) goals: the goal's closed form (term list) against the value recomputed from the
+    raw-moment sequences of Polar's own linear systems, n0 <= n <= n0 + NRAW"""
+    raw = v.pop("_raw", None)
+    if not raw or v.get("status") != "ok":
+        return
+    res = v["res"]
+    F = L.Field(res.get("D"))
+    cfs = {g: L.parse_terms(F, ts) for g, ts in res["cfs"]}
+    for si, s in enumerate(res.get("systems") or []):
+        if s.get("kind") not in ("c", "k"):
+            continue
+        seqs = [raw.get((si, j)) for j in range(s["order"])]
+        if any(q is None for q in seqs):
+            continue
+        ok = True
+        for n in range(res["n0"], res["n0"] + NRAW + 1):
+            m = {j + 1: seqs[j][n] for j in range(s["order"])}
+            want = central_from_raw(s["order"], m) if s["kind"] == "c" else cumulant_from_raw(s["order"], m)
+            got = L.eval_terms(F, cfs[s["goal"]], n)
+            if got != F.of_rat(want):
+                v["sys_bad"].append({"goal": s["goal"], "first_bad": {"n": n, "expected": L.fr_str(want),
+                                                                     "got": L.num_json(F, got)},
+                                     "how": "recomputed from the raw moments of Polar's linear systems"})
+                ok = False
+                break
+        if ok:
+            v["sys_ok"] += 1
 
 
 # ------------------------------------------------------------------------------------------------
@@ -337,58 +392,8 @@ def oracle_crosscheck(cases, verdicts, nmax=5):
 
 
 # ------------------------------------------------------------------------------------------------
-# known findings: F4 (truncated rational nullspace in the exponent lattice) seen through the ideal
+# replay
 # ------------------------------------------------------------------------------------------------
-
-def f4_signature(res):
-    from . import attrib_c16
-    bq = res.get("bases_q")
-    if not bq:
-        return None
-    try:
-        return attrib_c16.in_signature(bq)
-    except Exception:
-        return None
-
-
-def lattice_verdicts(results):
-    """polar-model lattice_check (C16, verified judge) on the lattice rows the code handed to LatticeIdeal;
-    returns {index: {"sound": bool, "complete": bool}}"""
-    reqs, idx = [], []
-    for i, res in results.items():
-        if res.get("bases_q") and res.get("lattice") is not None:
-            reqs.append({"op": "lattice_check", "bases": res["bases_q"], "rows": res["lattice"]})
-            idx.append(i)
-    out = {}
-    for i, ans in zip(idx, model_batch_parallel(reqs, timeout=60)):
-        if ans.get("ok") and ans.get("shape_ok", True):
-            out[i] = {"sound": all(ans.get("sound", [])), "complete": bool(ans.get("complete")),
-                      "spec_basis": ans.get("spec_basis")}
-    return out
-
-
-def attribution_runs(cases, verdicts, suspects, want_c07, k_extra, caps, timeout, clean):
-    """re-run the suspects with the in-memory lattice repairs.  `clean(verdict)` says whether the failure is
-    gone.  Order: integer-kernel repair (F4) / shortcut repair (F4b); where that run does not finish, the
-    'filter' repair (the code's own rows minus the rows that are not relations) - for soundness (C06) only."""
-    repaired = {}
-    for sig, kind in (("F4", "kernel"), ("F4b", "one")):
-        idx = [i for i in suspects if f4_signature(verdicts[i]["res"]) == sig]
-        if not idx:
-            continue
-        o2 = run_cases([cases[i] for i in idx], want_c07, k_extra, caps, timeout * 2, repair=kind)
-        v2 = judge([cases[i] for i in idx], o2, want_c07)
-        for i, w in zip(idx, v2):
-            repaired[i] = {"kind": kind, "verdict": w, "clean": w["status"] == "ok" and clean(w)}
-        if not want_c07:
-            rest = [i for i in idx if repaired[i]["verdict"]["status"] in ("timeout", "refused")]
-            if rest:
-                o3 = run_cases([cases[i] for i in rest], want_c07, k_extra, caps, timeout, repair="filter")
-                v3 = judge([cases[i] for i in rest], o3, want_c07)
-                for i, w in zip(rest, v3):
-                    repaired[i] = {"kind": "filter", "verdict": w, "clean": w["status"] == "ok" and clean(w)}
-    return repaired
-
 
 def replay_blob(case, v, what):
     res = v.get("res") or {}
